@@ -350,17 +350,104 @@ def main():
     lr.append("def gotoTable : List (Nat × Nat × List (Nat × Nat)) := [")
     lr.append(",\n".join("  (" + f"{nt}, {d}, [" + ", ".join(f"({a}, {b})" for a, b in cs) + "])" for nt, d, cs in goto) + "]")
     lr.append("")
-    lr.append("def productions : Array Production := #[")
-    rows = []
+    # symbol ids: terminal = its ACTION column, `error` = the last column, non-terminal = ncols + index
+    nt_of = {}
     for i in range(len(prods)):
         lhs, rhs, act, fallible, accept, ret = prods[i]
         pops, nt = ret if ret else (len(rhs), 0)
-        rows.append("  { lhs := %s, rhs := [%s], pops := %d, nt := %d, action := %d, fallible := %s, accept := %s }" % (
-            lean_str(lhs), ", ".join(lean_str(x) for x in rhs), pops, nt, act,
+        if nt_of.setdefault(lhs, nt) != nt:
+            fail(f"non-terminal {lhs} has two indices")
+    def sym_id(name):
+        if name in terms:
+            return terms.index(name)
+        if name == "error":
+            return ncols - 1
+        if name in nt_of:
+            return ncols + nt_of[name]
+        fail(f"symbol {name} is neither a terminal nor a non-terminal")
+    lr.append("def productions : Array Production := #[")
+    rows = []
+    prod_info = []
+    for i in range(len(prods)):
+        lhs, rhs, act, fallible, accept, ret = prods[i]
+        pops, nt = ret if ret else (len(rhs), 0)
+        ids = [sym_id(x) for x in rhs]
+        prod_info.append((ids, nt, accept))
+        rows.append("  { lhs := %s, rhs := [%s], rhsIds := [%s], pops := %d, nt := %d, action := %d, fallible := %s, accept := %s }" % (
+            lean_str(lhs), ", ".join(lean_str(x) for x in rhs), ", ".join(str(x) for x in ids), pops, nt, act,
             "true" if fallible else "false", "true" if accept else "false"))
     lr.append(",\n".join(rows) + "]")
     lr.append("")
     lr.append(f"def ncols : Nat := {ncols}")
+    lr.append("")
+
+    # ---------------- LR stack-shape certificate (checked in Lean, not trusted) ----------------
+    # edges (q, X, t): transitions that can actually occur on the parse stack. Shift edges come
+    # straight from ACTION; GOTO edges are the least fixpoint: (q, A, goto(q, A)) whenever some
+    # state t reduces by A -> X1..Xk and q is k edges below t.
+    def goto_of(state, nt):
+        for n, d, cs in goto:
+            if n == nt:
+                for a, b in cs:
+                    if a == state:
+                        return b
+                return d
+        return 0
+    succ = {q: set() for q in range(nstates)}
+    for q in range(nstates):
+        for c in range(ncols):
+            a = nums[q * ncols + c]
+            if a > 0:
+                succ[q].add((c, a - 1))
+    reduces = {}
+    for t in range(nstates):
+        rs = set()
+        for c in range(ncols):
+            a = nums[t * ncols + c]
+            if a < 0:
+                rs.add(-(a + 1))
+        if eof[t] < 0:
+            rs.add(-(eof[t] + 1))
+        reduces[t] = sorted(rs)
+    changed = True
+    while changed:
+        changed = False
+        preds = {t: set() for t in range(nstates)}
+        for q in range(nstates):
+            for (x, t) in succ[q]:
+                preds[t].add(q)
+        for t in range(nstates):
+            for p in reduces[t]:
+                ids, nt, accept = prod_info[p]
+                qs = {t}
+                for _x in reversed(ids):
+                    qs = set().union(*[preds[q] for q in qs]) if qs else set()
+                if accept:
+                    continue
+                for q in qs:
+                    e = (ncols + nt, goto_of(q, nt))
+                    if e not in succ[q]:
+                        succ[q].add(e)
+                        changed = True
+    preds = {t: set() for t in range(nstates)}
+    acc = {}
+    for q in range(nstates):
+        for (x, t) in succ[q]:
+            preds[t].add(q)
+            if acc.setdefault(t, x) != x:
+                fail(f"LR certificate: state {t} is entered by two different symbols")
+    lr.append("/-- LR stack-shape certificate (computed by the translator, CHECKED by `Props/LrSafe.lean`):")
+    lr.append("    per state the outgoing transitions (symbol id, target), the predecessor states and the accessing symbol -/")
+    lr.append("def certSucc : Array (List (Nat × Nat)) := #[" + ", ".join(
+        "[" + ", ".join(f"({x}, {t})" for x, t in sorted(succ[q])) + "]" for q in range(nstates)) + "]")
+    lr.append("")
+    lr.append("def certPreds : Array (List Nat) := #[" + ", ".join(
+        "[" + ", ".join(str(q) for q in sorted(preds[t])) + "]" for t in range(nstates)) + "]")
+    lr.append("")
+    lr.append("def certAcc : Array Nat := #[" + ", ".join(str(acc.get(t, 1000000)) for t in range(nstates)) + "]")
+    lr.append("")
+    lr.append("def certReds : Array (List Nat) := #[" + ", ".join(
+        "[" + ", ".join(str(p) for p in reduces[t]) + "]" for t in range(nstates)) + "]")
     lr.append("")
     lr.append("end Aidl.Gen")
     lr.append("")
